@@ -29,4 +29,12 @@ PROPS = {
         partial=["history_refines_statement", "counts_statement", "simple_queries_statement", "expand_statement",
                  "isReachableFrom_statement", "hasLoop_statement", "topologicalOrder_statement", "loopGroups_statement"],
     ),
+    "C09": dict(
+        lean_modules=["CCVerif.Properties.C09"],
+        harness=["c09_main.cpp"],
+        trusted_base=["EntityGenerator::NewUID (std::random_device) is an input of the model: the harness passes the uid the implementation drew",
+                      "formal definitions, texts and analysis results are opaque in this model (the property is about identity and order only)"],
+        assumptions=["MergeWith / equations are covered under C12, not here"],
+        partial=["inv_history_statement", "erase_removes_everywhere_statement"],
+    ),
 }
